@@ -55,6 +55,10 @@ if flavour == "vtime":
 elif flavour == "vos":
     shim("lib/sstls/archive.go", "os", "vos")
     shim("lib/sstls/gencert.go", "os", "vos")
+    # any other file of the package that comes to use os (none at the pinned commit)
+    for f in sorted(os.listdir(os.path.join(repo, "lib/sstls"))):
+        if f.endswith(".go") and not f.endswith("_test.go") and f not in ("archive.go", "gencert.go") and re.search(r'^\t"os"$', open(os.path.join(repo, "lib/sstls", f)).read(), re.M):
+            shim("lib/sstls/" + f, "os", "vos")
 elif flavour == "vclock":
     # every clock the HTTP layer and the broker may come to use (none at the pinned commit)
     for d in ("internal/hsrv", "internal/iobroker"):
